@@ -69,6 +69,11 @@ pub struct GenCfg {
     pub desc_mapped: bool,
     /// parameter indices beyond 0..=8 (255, 65535)
     pub big_indices: bool,
+    /// chance that [`simple_name`] returns one of the [`HOSTILE_TOKENS`] (NUL, supplementary and boundary code points,
+    /// one-character names that look like descriptor letters, very long names, U+FFFD = the lone-surrogate marker of
+    /// `model::set_surrogate`). `(0, _)` = never (the default; no random number is drawn then, so every existing workload
+    /// is unchanged). Used by the Miri slices.
+    pub hostile: (u32, u32),
 }
 impl Default for GenCfg {
     fn default() -> GenCfg {
@@ -77,7 +82,7 @@ impl Default for GenCfg {
             max_classes: 6, max_fields: 4, max_methods: 4, max_params: 3, big: (1, 40),
             nesting: true, max_depth: 4, orphan: (1, 5), odd_dollar: true, packages: true, unicode: true, placeholders: true,
             target_dollar: true, target_packages: true, comments: CommentClass::Rich, comment_chance: (1, 3), empty_comments: false,
-            unique_per_namespace: true, desc_mapped: true, big_indices: true,
+            unique_per_namespace: true, desc_mapped: true, big_indices: true, hostile: (0, 1),
         }
     }
 }
@@ -106,8 +111,32 @@ const PRIMS: &[char] = &['B', 'C', 'D', 'F', 'I', 'J', 'S', 'Z'];
 const NS_SETS: &[&[&str]] = &[&["official", "intermediary", "named", "calamus"], &["a", "b", "c", "d"], &["namespaceA", "namespaceB", "namespaceC", "namespaceD"],
     &["src", "dst", "dst2", "dst3"], &["ä", "名", "c-d", "e.f"], &["0", "1", "2", "3"]];
 
+/// Hostile-but-legal identifiers (valid as class part, field, method and parameter name; no white space, no `#`): NUL, other
+/// control characters, the first / last code point of every UTF-8 length class, supplementary characters, BOM and zero-width
+/// space, descriptor letters, U+FFFD (stands for a lone surrogate when `model::set_surrogate` is active).
+pub const HOSTILE_TOKENS: &[&str] = &["\u{0}", "a\u{0}b", "\u{1}", "\u{1b}x", "\u{7f}", "\u{80}", "\u{7ff}", "\u{800}", "\u{d7ff}", "\u{e000}", "\u{ffff}", "\u{10000}", "\u{10ffff}",
+    "𝒳🦀", "🦀x", "x🦀", "\u{feff}", "\u{feff}bom", "zero\u{200b}width", "\u{fffd}", "x\u{fffd}", "\u{fffd}y", "\u{fffd}\u{fffd}", "a\u{fffd}\u{10000}", "L", "LL", "I", "V", "B", "Lx", "xL", "e\u{301}\u{301}"];
+static HOSTILE_DRAWN: std::sync::atomic::AtomicU64 = std::sync::atomic::AtomicU64::new(0);
+/// how many hostile tokens were handed out by this process (evidence of the Miri slices)
+pub fn hostile_drawn() -> u64 { HOSTILE_DRAWN.load(std::sync::atomic::Ordering::Relaxed) }
+/// One of [`HOSTILE_TOKENS`], or (1 in 8) a long name: 40..=200 bytes of a repeated ASCII / BMP / supplementary unit, 1 in 8 of
+/// those 1000..=1300 bytes of an ASCII unit (the harness' own oracles print keys with `{:?}`, which costs the interpreter
+/// seconds per long non-ASCII name; the code under observation does not care about the length beyond a few bytes).
+pub fn hostile_token(rng: &mut Rng) -> String {
+    HOSTILE_DRAWN.fetch_add(1, std::sync::atomic::Ordering::Relaxed);
+    // while `model::set_surrogate` is active, half of the hostile names carry the lone-surrogate marker
+    if crate::model::surrogate_active() && rng.bool() { return rng.pick(&["\u{fffd}", "x\u{fffd}", "\u{fffd}y", "\u{fffd}\u{fffd}", "a\u{fffd}\u{10000}", "L\u{fffd}", "\u{fffd}L\u{fffd}"]).to_string(); }
+    if rng.chance(1, 8) {
+        if rng.chance(1, 8) { let unit = *rng.pick(&["L", "aL"]); return unit.repeat(rng.usize_in(1000, 1300) / unit.len() + 1); }
+        let unit = *rng.pick(&["L", "aL", "名", "é", "𝒳", "\u{fffd}L"]);
+        return unit.repeat(rng.usize_in(40, 200) / unit.len() + 1);
+    }
+    rng.pick(HOSTILE_TOKENS).to_string()
+}
+
 /// A simple identifier (no `/`, no `$`, valid as class part, field, method and parameter name).
 pub fn simple_name(rng: &mut Rng, cfg: &GenCfg) -> String {
+    if cfg.hostile.0 > 0 && rng.chance(cfg.hostile.0, cfg.hostile.1) { return hostile_token(rng); }
     if cfg.unicode && rng.chance(1, 6) { return rng.pick(UNI).to_string(); }
     let base = rng.pick(ASCII).to_string();
     if rng.chance(1, 4) { format!("{base}{}", rng.below(40)) } else { base }
